@@ -30,7 +30,10 @@ CLAIMED["C03"] = ("exploration", "3", "seeded analysis sessions over process-glo
 CLAIMED["C14"] = ("exploration", "3", "seeded operation histories over pools of shared/aliased correlators and argument objects; every result compared entry-wise with a reference model transcribed from the statement; SHA-1 snapshots of all operands/arguments before and after every call; repeated invocation",
          "deterministic simulation: histories over shared/aliased objects + reference model + mutation snapshots",
          "Obs/CObs arithmetic as trusted base; supported partner set per DESIGN C14; sampling, not proof")
-PENDING = {k: "claimed in DESIGN.md (deterministic simulation); check under construction, not yet registered" for k in ["C04","C11","C12","C13"]}
+CLAIMED["C04"] = ("exploration", "3", "seeded producer/consumer histories (arithmetic with every partner type in both orders, functions, reweight/correlate/merge, fits, roots, integrals, json/dobs/pickle/jackknife round trips, covariance inputs, malformed requests, interrupted operations); the representation invariant is evaluated on every returned object and on all pool objects after every step",
+         "deterministic simulation: operation histories + interrupt injection + representation-invariant monitor",
+         "invariant transcribed from the statement; ** restricted to real observables/numbers; sampling, not proof")
+PENDING = {k: "claimed in DESIGN.md (deterministic simulation); check under construction, not yet registered" for k in ["C11","C12","C13"]}
 def main():
     checks = []
     for pid, (cat, ref, text, tech, note) in sorted(CLAIMED.items()):
